@@ -4,20 +4,73 @@ import Cel.Gen.C7n
 namespace Cel.Bridge
 open Cel Cel.C7n
 
+set_option linter.unusedSimpArgs false
+set_option linter.unusedSectionVars false
+
+/-! The regenerated helpers are compared by their MEANING: any spelling inside the translated dialect (`&` or
+`.intersection`, `bool(s)` / `len(s) > 0` / `not s.isdisjoint(t)`, `if … return True`, `.strip().lower()`, a `for` loop with
+early return or a generator with `next()`, guard clauses or if/else or a conditional expression) bridges as long as it
+computes the model's function. -/
+
 section
 variable {α : Type} [DecidableEq α]
+@[simp] theorem c7n_decide_nil (l : List α) : decide (l = []) = l.isEmpty := by cases l <;> simp
+@[simp] theorem c7n_decide_len0 (l : List α) : decide (l.length = 0) = l.isEmpty := by cases l <;> simp
+@[simp] theorem c7n_decide_lenpos (l : List α) : decide (0 < l.length) = !l.isEmpty := by cases l <;> simp
+@[simp] theorem c7n_decide_len1 (l : List α) : decide (1 ≤ l.length) = !l.isEmpty := by cases l <;> simp
+@[simp] theorem c7n_decide_lenlt1 (l : List α) : decide (l.length < 1) = l.isEmpty := by cases l <;> simp
 theorem c7n_intersect_eq (l r : List α) : Gen.C7n.intersect l r = C7n.intersect l r := by
-  simp [Gen.C7n.intersect, C7n.intersect, celBool]
+  simp [Gen.C7n.intersect, C7n.intersect, celBool, pyBool, pyIsDisjoint, pyIsSubset, pyLen]
 theorem c7n_difference_eq (l r : List α) : Gen.C7n.difference l r = C7n.difference l r := by
-  simp [Gen.C7n.difference, C7n.difference, celBool]
+  simp [Gen.C7n.difference, C7n.difference, celBool, pyBool, pyIsDisjoint, pyIsSubset, pyLen]
 theorem c7n_unique_size_eq (c : List α) : Gen.C7n.unique_size c = C7n.uniqueSize c := by
   simp [Gen.C7n.unique_size, C7n.uniqueSize, celInt]
 end
+
+/-- lower-casing does not create or remove white space, so `.strip().lower()` is `.lower().strip()` -/
+theorem c7n_lower_space (c : Nat) : isSpace (lowerCp c) = isSpace c := by
+  unfold lowerCp
+  split
+  · rename_i h
+    have h1 : isSpace (c + 32) = false := by simp [isSpace]; omega
+    have h2 : isSpace c = false := by simp [isSpace]; omega
+    rw [h1, h2]
+  · rfl
+theorem c7n_dropWhile_lower (s : Str) : (s.map lowerCp).dropWhile isSpace = (s.dropWhile isSpace).map lowerCp := by
+  induction s with
+  | nil => rfl
+  | cons c t ih => simp [List.dropWhile, c7n_lower_space]; split <;> simp_all
+theorem c7n_strip_lower (s : Str) : pyLower (pyStrip s) = pyStrip (pyLower s) := by
+  simp [pyLower, pyStrip, lstrip, rstrip, c7n_dropWhile_lower, ← List.map_reverse]
+
 theorem c7n_normalize_eq (s : Str) : Gen.C7n.normalize s = C7n.normalize s := by
-  simp [Gen.C7n.normalize, C7n.normalize, celStr]
+  simp [Gen.C7n.normalize, C7n.normalize, celStr, c7n_strip_lower]
 /-- `fnmatch.fnmatch` and `fnmatch.fnmatchcase` coincide on POSIX, so either spelling bridges -/
 theorem c7n_glob_eq (t p : Str) : Gen.C7n.glob t p = C7n.glob t p := by
   simp [Gen.C7n.glob, C7n.glob, celBool, C7n.fnmatch, C7n.normcase]
+
+/-- the regenerated `key` (first-match scan over the tag list with the `MapType.get` accesses of the source) is the
+model's `key` on string-valued tags -/
+theorem c7n_key_eq (tags : List (Tag Str)) (k : Str) : Gen.C7n.key tags k = C7n.key tags k := by
+  induction tags with
+  | nil => rfl
+  | cons t ts ih =>
+    unfold Gen.C7n.key at ih ⊢
+    have hk : ofString "Key" = tagKeyName := rfl
+    have hv : ofString "Value" = tagValueName := rfl
+    have hne : tagValueName ≠ tagKeyName := by decide
+    simp only [pyFirst, C7n.key, Tag.get, hk, hv, hne, if_true, if_false]
+    cases hkey : t.key with
+    | none => simp [bind, Except.bind]
+    | some k' =>
+      by_cases h : k' = k
+      · cases hval : t.value <;> simp [bind, Except.bind, pure, Except.pure, h]
+      · simp [bind, Except.bind, pure, Except.pure, h]; exact ih
+
+/-- the regenerated decision of `size_parse_cidr` (guard clauses, if/else or a conditional expression over the truth
+value / class of the parsed value) returns the prefix length of a network and null otherwise, and never raises -/
+theorem c7n_size_eq (c : Cidr) : Gen.C7n.size_parse_cidr c = .ok (C7n.sizeParseCidr c) := by
+  cases c <;> first | rfl | simp [Gen.C7n.size_parse_cidr, C7n.sizeParseCidr, cidrTruthy, cidrIsNone, cidrIsNet, cidrPrefixlen, celInt, pure, Except.pure, bind, Except.bind]
 
 /-- `__enter__` installs the context, `__exit__` clears the global on every exit path and swallows nothing -/
 theorem c7n_ctx_enter_eq (self : Nat) (g : Option Nat) : Gen.C7n.ctxEnter self g = C7n.ctxEnter self g := by
